@@ -129,6 +129,48 @@ func opDig(r *hx.Run, b []byte) {
 	}
 }
 
+// opDigSeq decodes two texts through ONE variable, keeping a value copy of
+// the first result: Digest is passed around by value, so the copy must not
+// change when the variable is decoded into again.
+func opDigSeq(r *hx.Run, a, b []byte) {
+	out := hx.Guard(func() string {
+		var d claircore.Digest
+		ea := d.UnmarshalText(a)
+		cp := d
+		before := append([]byte(nil), cp.Checksum()...)
+		eb := d.UnmarshalText(b)
+		if ea == nil && !bytes.Equal(before, cp.Checksum()) {
+			// the statement: a decoded value stays equal to itself
+			r.Fail("", "a Digest value changed when the variable it was copied from decoded another text: first=hex:"+hx.Hex(a)+" second=hex:"+hx.Hex(b))
+		}
+		sa, sb := "err", "err"
+		if ea == nil {
+			sa = hx.Hex(cp.Checksum()) + ":" + hx.Hex([]byte(cp.String()))
+		}
+		if eb == nil {
+			sb = hx.Hex(d.Checksum()) + ":" + hx.Hex([]byte(d.String()))
+		}
+		return sa + " " + sb
+	})
+	r.Op("dig2 "+hx.Hex(a)+" "+hx.Hex(b), out, true)
+}
+
+// opVerSeq decodes two texts into one receiver (UnmarshalText mutates it).
+func opVerSeq(r *hx.Run, a, b []byte) {
+	out := hx.Guard(func() string {
+		var v claircore.Version
+		if err := v.UnmarshalText(a); err != nil {
+			return "err1"
+		}
+		cp := v
+		if err := v.UnmarshalText(b); err != nil {
+			return "err2"
+		}
+		return fmt.Sprintf("ok %s %s %s %s", hx.Hex([]byte(cp.Kind)), slots(cp.V), hx.Hex([]byte(v.Kind)), slots(v.V))
+	})
+	r.Op("ver-un2 "+hx.Hex(a)+" "+hx.Hex(b), out, true)
+}
+
 // ---- generators ----
 
 func randBytes(rnd *hx.Rand, alphabet string, n int) []byte {
@@ -498,6 +540,12 @@ func Run(cfg hx.Config) error {
 				m = bytes.Replace(m, []byte("."), []byte(rnd.Pick("..", ".+", ".-", ".0x", "._", ". ")), 1)
 			}
 			opVerUn(r, m)
+			b2, _ := func() ([]byte, error) { w := randVersion(rnd); return w.MarshalText() }()
+			if rnd.Chance(1, 3) {
+				b2 = b2[:len(b2)-rnd.Intn(1+len(b2)/2)] // fewer components: old slots stay
+			}
+			opVerSeq(r, b, b2)
+			opVerSeq(r, b, m)
 		}
 	}
 	_ = knownColon
@@ -537,6 +585,11 @@ func Run(cfg hx.Config) error {
 			m = append([]byte(nil), t[bytes.IndexByte(t, ':'):]...)
 		}
 		opDig(r, m)
+		d2 := randDigest(rnd)
+		opDigSeq(r, t, []byte(d2.String()))
+		if rnd.Chance(1, 4) {
+			opDigSeq(r, t, m)
+		}
 	}
 	for _, s := range []string{"", ":", "sha256:", "sha512:", "sha256", "sha256:zz", "sha256:0", "sha256:00", ":00", "sha384:" + strings.Repeat("0", 96), "sha256:" + strings.Repeat("A", 64), "sha256:" + strings.Repeat("a", 63), "sha256:" + strings.Repeat("a", 65), "sha512:" + strings.Repeat("f", 128), "sha256:" + strings.Repeat("f", 128)} {
 		opDig(r, []byte(s))
